@@ -33,7 +33,10 @@ theorem binVal_spec (o : BinOp) (a b : V) : binVal o a b = .ok (binSpec o a b) :
       cases o <;> simp [binVal, binSpec, binAdder, binSubtractor, binMultiplier, binDivider, binMaximizer,
         binMinimizer, PyF.add, PyF.sub, PyF.mul, PyF.div, PyF.max, PyF.min, PyF.gt, PyF.lt, PyF.eq, PyF.lit,
         PyF.nan, PyF.isnan, bind, Except.bind, pure, Except.pure] <;>
-        (by_cases h : y = 0 <;> simp [h])
+        (by_cases h : y = 0
+         · subst h; simp
+         · have h' : ¬ (0 : Rat) = y := fun e => h e.symm
+           simp [h, h'])
   | some x =>
     cases b with
     | none =>
